@@ -745,7 +745,8 @@ def W.postStop (w : W) : W :=
   let e := w.pool.foldl (fun e p => e.stop p.actor) e
   let e := e.emit (.hook .stopped)
   let e := w.inbox.foldl Env.dropMsg e
-  { w with env := { e with sup := [] }, queue := [], stopped := true, inbox := [], pool := w.pool.map (fun p => { p with mq := [] }) }
+  -- the factory's state is dropped with the actor
+  { w with env := { e with sup := [] }, queue := [], stopped := true, inbox := [], pool := [], poolSize := 0 }
 
 def W.replyAvailableCapacity (w : W) : Nat :=
   let avail := (w.pool.filter fun p => !p.draining && p.isAvailable).length
